@@ -10,12 +10,14 @@ import (
 	"runtime"
 	"sync"
 	"sync/atomic"
+	"time"
 
 	"github.com/anishathalye/porcupine"
 	"github.com/tendermint/iavl"
 	dbm "github.com/tendermint/tm-db"
 	"pgregory.net/rapid"
 
+	"github.com/pokt-network/posmint/store/cachekv"
 	"github.com/pokt-network/posmint/store/cachemulti"
 	"github.com/pokt-network/posmint/store/dbadapter"
 	iavlstore "github.com/pokt-network/posmint/store/iavl"
@@ -45,6 +47,11 @@ type c15Prog struct {
 	Spare int `json:"spare,omitempty"`
 	// concurrent mode: the initial content sits in the parent (reads go through to it) instead of in the wrapper
 	ParentInit bool `json:"parent_init,omitempty"`
+	// concurrent mode with a harness-owned schedule: two threads run in lock step; whenever thread 0's operation
+	// reaches the parent store (a read-through of an uncached key) it is held there while thread 1's operation of the
+	// same step is started - the interleaving in which a wrapper that lets go of its lock during the parent read
+	// loses an update
+	Gated bool `json:"gated,omitempty"`
 }
 
 // ---------------------------------------------------------------------------------------------
@@ -112,6 +119,9 @@ func genC15(t *rapid.T, tier string) interface{} {
 		p.Init = [][]kvPair{genInit(t, "init", false)}
 		p.ParentInit = rapid.Bool().Draw(t, "parentinit")
 		nth := rapid.IntRange(2, 4).Draw(t, "threads")
+		if rapid.Bool().Draw(t, "gated") {
+			p.Gated, p.ParentInit, nth = true, true, 2
+		}
 		for i := 0; i < nth; i++ {
 			ops := rapid.SliceOfN(rapid.Custom(func(t *rapid.T) c15Op {
 				o := c15Op{Op: rapid.SampledFrom([]string{"get", "has", "set", "del"}).Draw(t, "op")}
@@ -612,10 +622,64 @@ var c15RegModel = porcupine.Model{
 	Equal: func(a, b interface{}) bool { return a.(c15RegOut) == b.(c15RegOut) },
 }
 
+// c15Gate: a parent store whose reads can be held (harness-owned schedule for the concurrent mode)
+type c15Gate struct {
+	stypes.KVStore
+	mu      sync.Mutex
+	armed   bool
+	entered chan struct{}
+	release chan struct{}
+}
+
+func (g *c15Gate) arm() {
+	select {
+	case <-g.entered:
+	default:
+	}
+	select {
+	case <-g.release:
+	default:
+	}
+	g.mu.Lock()
+	g.armed = true
+	g.mu.Unlock()
+}
+
+func (g *c15Gate) disarm() {
+	g.mu.Lock()
+	g.armed = false
+	g.mu.Unlock()
+}
+
+func (g *c15Gate) pause() {
+	g.mu.Lock()
+	a := g.armed
+	g.armed = false
+	g.mu.Unlock()
+	if !a {
+		return
+	}
+	g.entered <- struct{}{}
+	select {
+	case <-g.release:
+	case <-time.After(50 * time.Millisecond):
+	}
+}
+
+func (g *c15Gate) Get(k []byte) []byte         { g.pause(); return g.KVStore.Get(k) }
+func (g *c15Gate) Has(k []byte) bool           { g.pause(); return g.KVStore.Has(k) }
+func (g *c15Gate) CacheWrap() stypes.CacheWrap { return cachekv.NewStore(g) }
+
 func execC15Conc(p *c15Prog, c *Case) *Violation {
 	c.Label("concurrent")
 	base := c15BaseStore("mem", nil)
 	store := base.CacheWrap().(stypes.CacheKVStore)
+	var gate *c15Gate
+	if p.Gated {
+		c.Label("concurrent-gated")
+		gate = &c15Gate{KVStore: base, entered: make(chan struct{}, 1), release: make(chan struct{}, 1)}
+		store = cachekv.NewStore(gate)
+	}
 	// initial content goes in through the wrapper, recorded as completed operations at time 0
 	var clock int64
 	var hist []porcupine.Operation
@@ -633,7 +697,72 @@ func execC15Conc(p *c15Prog, c *Case) *Violation {
 	var mu sync.Mutex
 	var wg sync.WaitGroup
 	startCh := make(chan struct{})
-	for ti, ops := range p.Threads {
+	runOp := func(cid int, o c15Op) porcupine.Operation {
+		k := unhex(o.K)
+		in := c15RegIn{op: o.Op, key: string(k)}
+		var out c15RegOut
+		call := atomic.AddInt64(&clock, 1)
+		switch o.Op {
+		case "get":
+			v := store.Get(k)
+			out = c15RegOut{val: string(v), present: v != nil}
+		case "has":
+			out = c15RegOut{present: store.Has(k)}
+		case "set":
+			in.val = string(unhex(o.V))
+			store.Set(k, unhex(o.V))
+		case "del":
+			store.Delete(k)
+		}
+		return porcupine.Operation{ClientId: cid, Input: in, Call: call, Output: out, Return: atomic.AddInt64(&clock, 1)}
+	}
+	threads := p.Threads
+	if p.Gated && len(p.Threads) >= 2 {
+		threads = nil
+		held, overlapped := 0, 0
+		n := len(p.Threads[0])
+		if len(p.Threads[1]) < n {
+			n = len(p.Threads[1])
+		}
+		for i := 0; i < n; i++ {
+			a, b := p.Threads[0][i], p.Threads[1][i]
+			gate.arm()
+			doneA := make(chan porcupine.Operation, 1)
+			go func() { doneA <- runOp(1, a) }()
+			select {
+			case <-gate.entered:
+				// thread 0 sits in the parent read: start thread 1's operation and give it a moment. A wrapper that holds
+				// its lock across the read keeps it waiting; the verdict is the linearizability of what was observed
+				held++
+				doneB := make(chan porcupine.Operation, 1)
+				go func() { doneB <- runOp(2, b) }()
+				var opB porcupine.Operation
+				gotB := false
+				select {
+				case opB = <-doneB:
+					gotB = true
+					overlapped++
+				case <-time.After(time.Millisecond):
+				}
+				gate.release <- struct{}{}
+				opA := <-doneA
+				if !gotB {
+					opB = <-doneB
+				}
+				hist = append(hist, opA, opB)
+			case opA := <-doneA:
+				gate.disarm()
+				hist = append(hist, opA, runOp(2, b))
+			}
+		}
+		if held > 0 {
+			c.Label("concurrent-gated:read-through-held")
+		}
+		if overlapped > 0 {
+			c.Label("concurrent-gated:other-thread-completed-during-the-read")
+		}
+	}
+	for ti, ops := range threads {
 		wg.Add(1)
 		go func(ti int, ops []c15Op) {
 			defer wg.Done()
